@@ -956,7 +956,7 @@ def run(R: Run):
     workdir = tempfile.mkdtemp(prefix="c05-")
     try:
         n_e2e = R.pick(170, 4200)
-        t_budget = R.pick(55, 560)
+        t_budget = R.pick(45, 520)
         t0 = time.time()
         corpus = [
             dict(shape=[8, 200], axis="YX", ns=1, dtype="uint8", blocksize=[32], comp="deflate", predictor=None, nodata=None,
